@@ -395,9 +395,9 @@ def _exec(mdir, cid, sched, skip, dynamic):
         kn = key_name(cid, sc)
         player = sc['via'] == 'player'
         r = rs[sh]
-        if op != 'play' and r is not None and r.stopped:
+        if op not in ('play', 'late', 'stop') and r is not None and r.stopped:
             notes.append([len(lines) + 1, 'over'])          # a request to a show that is over
-        elif op == 'resume' and pending(r):
+        elif op == 'resume' and r is not None and pending(r):
             notes.append([len(lines) + 1, 'resume-armed'])  # resume to a show that is not paused
         if op == 'play':
             for o in range(1, nsl + 1):
@@ -595,11 +595,11 @@ def diagnose_all(wd, cfg, traces, v):
 
 
 FINDINGS = {
-    'over': ('C17:control-after-end', 'a pause/resume/advance/step_back request reaching a show that has already completed '
-             '(show_player keeps the instance under its key) runs _run_next_step on the stopped show: completed is posted '
-             'again, or steps are executed again and their lights are never removed'),
-    'resume-armed': ('C17:resume-while-running', 'resume() on a show that is not paused does not cancel the pending timer: '
-                     'two timer chains run, only one is cancelled by stop(), the other keeps executing steps after the stop'),
+    'over': ('C17:control-after-end', 'a resume/advance/step_back request reaching a show that is already over (show_player '
+             'keeps a completed instance under its key) still ran on it: completed is posted again, or steps are executed '
+             'again and their lights are never removed'),
+    'resume-armed': ('C17:resume-while-running', 'resume() on a show that is not paused did not cancel the pending timer: '
+                     'two timers of the same show are pending (a second chain that stop() does not cancel)'),
 }
 
 
@@ -665,8 +665,10 @@ def run(ctx):
         info = v.rejected[i]
         if i in explained:
             continue
+        # the two repaired defects: named only when that very behaviour is what the failing line shows
+        fe = info.get('failing_event') or {}
         for ln, kind in traces[i].get('_notes', []):
-            if ln == info['line']:
+            if ln == info['line'] and _observed(kind, fe):
                 explained[i] = FINDINGS[kind]
     for i in rej:
         info = v.rejected[i]
@@ -689,6 +691,21 @@ def run(ctx):
                         'pause/advance/step_back/update are issued only to shows that have started; requests to shows waiting '
                         'for their sync point are not generated',
                         'mid-fade colours are not compared; colours and the differential run are compared when lights are at rest']
+
+
+def _observed(kind, e):
+    """Does the failing line itself show the defect? (the note alone only says which request was made)"""
+    try:
+        o = e['S'][e['sh'] - 1]
+    except (KeyError, IndexError, TypeError):
+        return False
+    if kind == 'over':
+        # the request went to a show that was over, and yet it executed steps, posted show events or armed a timer
+        return bool(o['steps'] or o['ev'] or o['sched'] != -1)
+    if kind == 'resume-armed':
+        # resume to a running show left two pending timers of the same show behind: a second chain
+        return e.get('op') == 'resume' and o['sched'] == -2
+    return False
 
 
 def _brief(e):
